@@ -5,9 +5,11 @@ pub mod engine;
 pub mod gens;
 pub mod props;
 pub mod refwire;
+pub mod w_algo;
 pub mod w_dns;
 pub mod w_keys;
 pub mod w_ntske;
+pub mod w_ptp;
 pub mod w_server;
 pub mod w_source;
 pub mod w_spawn;
